@@ -30,7 +30,7 @@ def rec? (s : String) : Option (Rec Nat) :=
   match s.splitOn ":" with
   | [i, r, p, h] => do
     let i ← i.toNat?; let r ← r.toNat?; let p ← bit? p; let h ← bit? h
-    pure { id := i, req := r, hasResp := p, isHttp := h }
+    pure { id := i, req := r, hasResp := p, isHttp := h, resp := i }
   | _ => none
 
 def recs? (s : String) : Option (List (Rec Nat)) :=
@@ -136,6 +136,8 @@ def stepLine (d : DSt) (line : String) : DSt × String :=
     | some rs => let s := addFlows h d.s rs; ({ d with s := s }, dump s)
     | none => (d, "bad-op")
   | ["clear"] => let s := clear d.s; ({ d with s := s }, dump s)
+  | ["edit"] => (d, dump (step (hashOf d.table) d.s (.edit 0 0)).1)
+  | ["kedit"] => (d, dump (step (hashK d) d.ks (.edit 0 0)).1)
   | ["conf", o] =>
     match o.toNat? with
     | some o => let s := configure h d.s o; ({ d with s := s }, dump s)
